@@ -119,6 +119,11 @@ def generate(rng, idx, tier, variant):
             if int_model:
                 plan = S.integer_plan(plan)
             op['plan'] = {'*': plan}
+            if rng.random() < 0.12 and not int_model:
+                # user code that calls back into the library while a (traced) solve is under way; a nested solve of
+                # another period only from single-period entries (a multi-period solve would meet that period again)
+                single_ok = entry != 'solve' and bad_t is None
+                plan['cb'] = S.gen_callbacks(rng, spec, opts, tn if single_ok else None, S.SAFE_CALLBACKS + (['nested_solve'] * 3 if single_ok else []))
             if rng.random() < 0.03 and not off_call and not int_model:
                 # a very long trace (well past a hundred snapshots) of several variables
                 opts.update({'max_iter': 140, 'min_iter': 0, 'failures': 'ignore', 'errors': 'ignore', 'tol': 2.0**-10, 'offset': 0})
@@ -341,6 +346,9 @@ def execute(schedule, ctx):
             attempted = list(planned)
         oC = _out(lambda: call(C))
         pA, pB, pC = (ref_solver.snapshot(m) for m in (A, B, C))
+        for what_, res_ in probes.get_ctl(A).callbacks:
+            ctx.fault('callback-into-library' if res_ == 'ok' else 'callback-into-library-raised')
+            ctx.probe('callback:' + what_)
         S.count_faults(ctx, probes.get_ctl(B).log, opts)
         ctx.count('passes', sum(1 for r in probes.get_ctl(A).log if r['hook'] == 'eval'))
         ctx.count('steps', len(probes.get_ctl(A).log))
